@@ -20,9 +20,11 @@ Cases: all (n, k, i) up to a bound incl. rejected calls, random large n, call se
   scalars incl. floats, any container), context dicts (falsy and empty values), renamed dictionary keys; operation
   lists of 4..14 steps.  Beyond the quantifier (correspondence only, no oracle): repeated option values, values with
   `.`/`[`/`]`, key names that collide at the top level, non-iterable options, unknown keys.  Where neither the property
-  nor a hypothesis of a theorem says anything (nbatch < 1 or an absent site on a SiteBatch, an option without values, key
-  names that collide inside a task dictionary, `==` between managers that differ, answers after a rejected grid) a
-  difference from the model is counted in the evidence, not reported.
+  nor a hypothesis of a theorem says anything (which bare values must be refused and what a refused grid leaves behind,
+  `find` on values with `.`/brackets, nbatch < 1 or an absent site on a SiteBatch, an option without values, an unknown
+  key on a manager without tasks, key names that collide inside a task dictionary, `==` between managers that differ)
+  both sides are run and a difference from the model is tallied in the evidence (`outside_property_differences`): it is
+  neither a finding nor a disagreement.
 A case is non-trivial when the call is accepted and returns a non-empty result.
 """
 import copy
@@ -623,14 +625,15 @@ def body(ctx):
         held = {}                           # list objects handed to the manager earlier (handed again later)
         shape = None
         ops, outs, loose = [], [], []
+        tainted = False
         trace = []
         for step in range(rng.randint(4, 14)):
             if opm.ntasks > 5000 or enough():
                 break       # no grid of the quantifier has more than 5**4 tasks: the object grows without bound, stop driving it
-            if not cur_ok:
-                # after a rejected grid (an option that is neither a scalar nor iterable - outside the quantifier) the property says
-                # nothing about the state the manager is left in: the model states the one of this code (options partly rebuilt,
-                # old tasks); answers are compared, but a difference is only counted
+            if tainted:
+                # after a grid with an option that is neither a scalar nor iterable (outside the quantifier) the property says
+                # nothing about the state the manager is left in: the model states the one of this code (rejected, options partly
+                # rebuilt, old tasks); answers are compared to the end of the history, but a difference is only tallied
                 loose.append(len(ops))
             r = rng.random()
             fresh_case = {"context": ctxd, "trace": trace[-8:], "step": step}
@@ -655,29 +658,37 @@ def body(ctx):
                         kw[k] = realize(a)
                         if a[0] == "list":
                             held[k] = (kw[k], list(a[1]))
+                bad = any(a[0] == "none" for a in args.values())
                 kt, vt = enc_args(args)
                 ops.append(f"C:{kt}:{vt}")
+                if bad:
+                    # an option that is neither a scalar nor iterable is outside the quantifier, and the property does not say which
+                    # values must be refused: this tree may reject it (the model does) or take it as one more bare value.  From here
+                    # on the history is run on both sides, a difference is only tallied (outside_property_differences)
+                    tainted = True
+                    loose.append(len(ops) - 1)
                 try:
                     opm.from_cartesian_product(**kw)
                     outs.append("ok")
                     accepted = True
-                except TypeError:
+                except Exception as e:  # noqa
                     outs.append("err")
                     accepted = False
+                    if not bad and not isinstance(e, TypeError):
+                        outs[-1] = f"err other:{type(e).__name__}"
                 trace.append(f"from_cartesian_product({ {k: list(a) for k, a in args.items()} })")
-                if accepted:
+                if bad:
+                    cur_ok = False
+                elif accepted:
                     cur_args, cur_ok = args, True
                     shape = [(k, len(a[1]) if a[0] != "bare" else 0, a) for k, a in args.items()]
                     keys, want = expected_tasks(args)
                     if typed(opm.tasks) != typed(want):
                         ctx.finding("product/not_each_once", "tasks of a regenerated grid are not every combination exactly once",
                                     {**fresh_case, "options": {k: list(a) for k, a in args.items()}})
-                    if bad:
-                        ctx.finding("product/accepts_non_iterable", "an option that is neither a scalar nor iterable was accepted", fresh_case)
                 else:
                     cur_ok = False
-                    if not bad:
-                        ctx.finding("product/rejects_valid", "a valid option dictionary was rejected", {**fresh_case, "options": {k: list(a) for k, a in args.items()}})
+                    ctx.finding("product/rejects_valid", "a valid option dictionary was rejected", {**fresh_case, "options": {k: list(a) for k, a in args.items()}})
                 ctx.count(("hist", it, step, "C"), accepted, "history_grid" + ("" if accepted else "_rejected"))
             elif r < 0.42:
                 if cur_args is None or not cur_ok:
@@ -907,27 +918,45 @@ def body(ctx):
     # ---------------- correspondence
     replies = lean.ask(reqs)
     kind_differs = 0
+    outside = {}
+
+    def tally(what):
+        """both sides were run on an input the property leaves open (outside the quantifier, or an answer it does not fix) and
+        they differ: counted in the evidence, neither a finding nor a disagreement"""
+        outside[what] = outside.get(what, 0) + 1
+
     for req, impl, rep, case, exact in zip(reqs, impls, replies, cases, strict):
         if not exact and impl.startswith("err") and rep.startswith("err"):
             # the property fixes WHICH calls are rejected, not the wording / exception class / which guard speaks first
             kind_differs += impl.split(":")[0] != rep
             continue
+        kind = case.get("kind")
         if req.startswith("sbsearch ") and rep == "none" and impl.startswith("err") \
                 and (int(req.split()[2]) < 1 or case.get("site") not in case.get("ids", [])):
             # nbatch < 1 and a site that is not in the list are outside the quantifier: "nothing found" and "rejected" are both in order
+            tally("search for an absent site, or nbatch < 1: rejected instead of nothing found")
             continue
-        if case.get("kind") == "collide" and tuple(case.get("keynames", ())) in TASK_LEVEL_COLLISIONS and impl != rep:
+        if kind == "collide" and tuple(case.get("keynames", ())) in TASK_LEVEL_COLLISIONS and impl != rep:
             # key names that collide inside a task dictionary are outside the quantifier and no theorem excludes them: the
             # model follows the dictionary literal of the code (last entry wins); another tree may order it otherwise
-            ctx.extra["task_level_key_collisions_answered_differently"] = ctx.extra.get("task_level_key_collisions_answered_differently", 0) + 1
+            tally("key names colliding inside a task dictionary")
             continue
-        if case.get("kind") == "noniter" and impl != rep and impl.split()[:2] == rep.split()[:2] == ["err", "typeError"]:
-            ctx.extra["states_after_a_rejected_grid_that_differ_from_the_model"] = ctx.extra.get("states_after_a_rejected_grid_that_differ_from_the_model", 0) + 1
+        if kind == "noniter" and impl != rep:
+            # the property does not say which bare values must be refused, nor what a refused call leaves behind
+            tally("an option that is neither a scalar nor iterable: accepted, or another state left behind")
             continue
-        if case.get("kind") == "empty" and req.startswith("find ") and rep.startswith("ok []") and impl.startswith("err"):
-            continue    # an unknown key on a manager without tasks: "nothing found" and "rejected" are both in order
-        if case.get("kind") == "empty" and impl.startswith("err other"):
-            continue    # an option without values is outside the quantifier (1 to 5 values): "no task" and "rejected" are both in order
+        if kind == "dots" and req.startswith("find ") and impl != rep:
+            # values with `.`, `[`, `]` (floats in lists, dotted names): outside the quantifier; this code's regular expression
+            # over-matches there (theorem valMatch_counterexamples), an exact comparison is as good
+            tally("find on values with regular-expression metacharacters or brackets")
+            continue
+        if kind == "empty" and req.startswith("find ") and rep.startswith("ok []") and impl.startswith("err"):
+            tally("unknown key on a manager without tasks: rejected instead of nothing found")
+            continue
+        if kind == "empty" and impl.startswith("err other"):
+            # an option without values is outside the quantifier (1 to 5 values): "no task" and "rejected" are both in order
+            tally("an option without values: rejected instead of no task")
+            continue
         if req.startswith("hist "):
             # reply of the model: one token per operation, then a summary token (n=..., consistency of `run` with the fold)
             rt = rep.split()
@@ -935,12 +964,12 @@ def body(ctx):
             if rt and rt[-1].startswith("n=") and not rt[-1].startswith(f"n={len(impl.split())},"):
                 rep += " " + rt[-1]
             if impl != rep and case.get("loose"):
-                a, b = impl.split(), rep.split()
-                if len(a) == len(b) and all(x == y or i in case["loose"] for i, (x, y) in enumerate(zip(a, b))):
-                    ctx.extra["unconstrained_answers_that_differ_from_the_model"] = \
-                        ctx.extra.get("unconstrained_answers_that_differ_from_the_model", 0) + 1
+                a_, b_ = impl.split(), rep.split()
+                if len(a_) == len(b_) and all(x == y or i in case["loose"] for i, (x, y) in enumerate(zip(a_, b_))):
+                    tally("answers before the first grid, or after a grid with an option that is neither a scalar nor iterable")
                     continue
         ctx.compare("C19", {"request": req, **case}, impl, rep)
+    ctx.extra["outside_property_differences"] = outside
     ctx.extra["rejections_with_another_error_kind_than_the_model"] = kind_differs
     ctx.extra["rule"] = __doc__.split("Cases:")[1].strip()
     ctx.assumptions += ["itertools.product, re, json are exercised but not modelled beyond their results; numpy.array_split's arithmetic is mirrored in the model",
